@@ -185,3 +185,16 @@ def run(res, ctx):
         "known_findings_replayed": dict(known_hit),
         "traces_validated_against_impl": 2 * st["evaluations"],
     })
+
+
+def replay(res, ctx, path):
+    """replays of the --symbol-base text layer are re-run alone; any other replay re-runs the check"""
+    import json
+    import common
+    import props.c16_text as c16_text
+    rep = json.load(open(path))
+    if "symbol_base" in rep and "input" not in rep:
+        c16_text.replay(res, ctx, rep)
+    else:
+        run(res, ctx)
+    return res.finish(common.check_proofs("C16"))
